@@ -16,11 +16,11 @@ use std::time::{Duration, Instant};
 /// Milliseconds (since process start) at which the current case began; 0 = idle.
 static CASE_START_MS: AtomicU64 = AtomicU64::new(0);
 
-/// Per-case watchdog: a case that runs longer than BN_CASE_TIMEOUT seconds (default 60) ends the
+/// Per-case watchdog: a case that runs longer than BN_CASE_TIMEOUT seconds (default 25) ends the
 /// process with status 97; the orchestrator records `hang` for the announced case and restarts the
 /// worker on the rest of its shard.
 fn start_watchdog(t0: Instant) {
-    let limit_ms: u64 = std::env::var("BN_CASE_TIMEOUT").ok().and_then(|s| s.parse::<u64>().ok()).unwrap_or(60) * 1000;
+    let limit_ms: u64 = std::env::var("BN_CASE_TIMEOUT").ok().and_then(|s| s.parse::<u64>().ok()).unwrap_or(25) * 1000;
     std::thread::spawn(move || loop {
         std::thread::sleep(Duration::from_millis(200));
         let st = CASE_START_MS.load(Ordering::Relaxed);
